@@ -467,6 +467,9 @@ class Search:
         S.append([('C', i), ('H', i), ('P', i, 'x')] + [('X', i, sv, 'cur', 'OKA') for sv in svcs] + [('X', i, sv, 'cur', 'OK') for sv in svcs])
         S.append([('C', i), ('P', i, 'nobang'), ('N', i), ('u', i), ('n', i), ('U', i)] + [('X', i, sv, 'cur', 'OK') for sv in svcs] + [('H', i)])
         S.append([('C', i), ('H', i), ('P', i, 'bang')] + [('X', i, sv, 'cur', 'OKE') for sv in svcs[:1]] + [('X', i, sv, 'cur', 'NO') for sv in svcs[:1]] + [('D', i)])
+        if 'addr2' in proto.CLIENTS.get(i, {}):
+            # the id announced from another address and port
+            S.append([('C2', i), ('H', i), ('P', i, 'x')] + [('X', i, sv, 'cur', 'MORE') for sv in svcs[:1]] + [('X', i, sv, 'cur', 'OK') for sv in svcs[1:]] + [('TO', i)])
         return S
 
     def merge_check(self, limit=400):
@@ -474,10 +477,12 @@ class Search:
         client identically: runs each continuation after both histories on the real daemon and compares what is written
         (routing serials masked).  Returns (pairs checked, [(text, replay)])."""
         pairs = [m for b in sorted(self.merges) for m in self.merges[b]][:limit]
+        self.merge_observed = []      # observer violations on the continuations: [(tag, text, replay)]
         if not pairs:
             return 0, []
         bad = []
         i = self.ids[0]
+        seen_obs = set()
         srv = e1.Server(self.conf, builddir=self.b)
         try:
             for tgt, frm, ev, cev in pairs:
@@ -487,12 +492,40 @@ class Search:
                 ser_b = self.states[frm].serial + (1 if ev[0] in ('C', 'C2') else 0)
                 for suf in self.merge_suffixes(i):
                     outs = []
-                    for hist, ser in ((hist_a, ser_a), (hist_b, ser_b)):
+                    for which, (hist, ser) in enumerate(((hist_a, ser_a), (hist_b, ser_b))):
                         ctx = {'cur': {i: ser + 1}, 'old': {}, 'serial': ser}
-                        conc = [proto.render(e, ctx) for e in suf]
+                        conc = [c for c in (proto.render(e, ctx) for e in suf)]
+                        if any(c is None for c in conc):
+                            break
                         res, status, err, ex = srv.trace(list(hist) + conc, 0)
                         steps = res[len(hist):]
                         outs.append((status, [tuple(_norm_line(l) for l in r.out) for r in steps]))
+                        # the observer judges the continuation as well (the merged state's observer record is the starting point):
+                        # a defect that needs state outside the dump shows up under the property it breaks
+                        M = tuple((j, None) if j == i else (j, inst) for j, inst in self.states[tgt].M)
+                        octx = {'cur': {}, 'old': {}, 'serial': ser}
+                        for e, r in zip(suf, steps):
+                            try:
+                                Mn, V, W = proto.step(self.world, M, e, octx, octx['serial'] + 1, r.out)
+                            except Exception:
+                                break
+                            if e[0] in ('C', 'C2'):
+                                octx['serial'] += 1
+                                octx['cur'][e[1]] = octx['serial']
+                            for j, inst in Mn:
+                                if inst is None and j in octx['cur'] and not (e[0] in ('C', 'C2') and e[1] == j):
+                                    octx['old'][j] = octx['cur'].pop(j)
+                            M = Mn
+                            for tag, text in V:
+                                if (tag, e) in seen_obs or tag.startswith('C06.unknown') or tag.startswith('C07.'):
+                                    continue
+                                seen_obs.add((tag, e))
+                                hh = (self.sym_history(tgt) if which == 0 else self.sym_history(frm) + [ev])
+                                self.merge_observed.append((tag, '%s  (after the history [%s], continuation [%s])' % (text, ' | '.join(proto.ev_str(x) for x in hh) or '-', ' | '.join(proto.ev_str(x) for x in suf)),
+                                                            {'engine': 'E1-merge', 'conf': self.conf, 'hist_a': [list(map(_jsonable, c)) for c in hist], 'hist_b': [list(map(_jsonable, c)) for c in hist],
+                                                             'suffix': [list(x) for x in suf], 'serial_a': ser, 'serial_b': ser, 'id': i, 'clause': tag}))
+                    if len(outs) < 2:
+                        continue
                     if outs[0] != outs[1]:
                         k = next((n for n in range(min(len(outs[0][1]), len(outs[1][1]))) if outs[0][1][n] != outs[1][1][n]), None)
                         ha = ' | '.join(proto.ev_str(e) for e in self.sym_history(tgt)) or '-'
